@@ -1,7 +1,6 @@
 CONSTANTS
   Keys <- KeysCore
   MaxLen = 4
-  Full = FALSE
   Quiet = TRUE
 INIT Init
 NEXT Next
